@@ -318,6 +318,9 @@ func (l *ledGen) buildBlock(parent string) *gBlock {
 	for i := 0; i < ncb; i++ {
 		cb.outs = append(cb.outs, fmt.Sprintf("%s:%d", l.anyDest(), 100+l.r.Int63n(900)))
 	}
+	if spec := l.cbDeposit(); spec != "" { // C10/C01: the miner stakes / binds straight from the coinbase
+		cb.outs = append(cb.outs, spec)
+	}
 	cb.line = fmt.Sprintf("tx %s %d cb %s", cb.name, l.nTx, strings.Join(cb.outs, ";"))
 	l.define(cb)
 	applyTx(b.utxo, cb, b.height)
@@ -555,6 +558,9 @@ func (l *ledGen) observe(full bool) {
 	}
 	if full {
 		l.op("q-pend", "pend")
+		if l.g.Prop == "C10" || l.g.Prop == "C01" { // raw dump of the mined deposit history
+			l.op("q-glog", "glog")
+		}
 		if l.g.Prop == "C09" { // raw dumps of the pending stores
 			l.op("q-pins", "pins")
 			l.op("q-pcred", "pcred")
